@@ -65,6 +65,11 @@ func init() {
 		Components: []string{"real: replaydetector (plain and wrapping)", "simulated environment: sender/network/attacker/auth pipeline"}, Assumptions: stdAssume, Rule: rdRule})
 	def("C05", &propCfg{Dir: "c04", Pkgs: []string{"replaydetector"},
 		Components: []string{"real: replaydetector (plain and wrapping)", "simulated environment: sender/network/attacker/auth pipeline"}, Assumptions: stdAssume, Rule: rdRule})
+	bufRule := "two run classes per seed: (a) sequential histories of Write/Read/SetLimitCount/SetLimitSize/Close with length profiles around the ring's growth sizes 2048*2^k and the 4 MiB cap, compared operation by operation with a FIFO reference model; (b) concurrent histories (<=3 writers, <=3 readers, limit changer, closer under the controller) whose invoke/return history is checked for linearizability against the same model with porcupine. Non-trivial: sequential >=2 writes and >=1 read, distinct = hash of the history; concurrent >=3 workers and >=1 context switch, distinct = schedule hash"
+	def("C06", &propCfg{Dir: "c06", Pkgs: []string{"packetio", "deadline"},
+		Components: []string{"real: packetio.Buffer, deadline.Deadline", "oracle: FIFO reference model; porcupine v1.3.0 for concurrent histories"}, Assumptions: stdAssume, Rule: bufRule})
+	def("C07", &propCfg{Dir: "c06", Pkgs: []string{"packetio", "deadline"},
+		Components: []string{"real: packetio.Buffer, deadline.Deadline", "oracle: FIFO reference model with limits; porcupine v1.3.0 for concurrent histories"}, Assumptions: stdAssume, Rule: bufRule})
 	def("C09", &propCfg{
 		Components:  []string{"real: deadline.Deadline over simrt.Timer (AfterFunc callbacks are workers parked at their entry, so a dispatched-but-unrun callback can be overtaken by further Set calls)", "stub: none"},
 		Assumptions: stdAssume,
@@ -81,6 +86,15 @@ func main() {
 	if len(os.Args) < 2 {
 		fmt.Fprintln(os.Stderr, "usage: check <ID> [--tier quick|thorough] [--replay file] [--procs n] [--budget seconds] [--keep]")
 		os.Exit(2)
+	}
+	if os.Args[1] == "--list" {
+		var ids []string
+		for id := range props {
+			ids = append(ids, id)
+		}
+		sort.Strings(ids)
+		fmt.Println(strings.Join(ids, " "))
+		return
 	}
 	id := strings.ToUpper(os.Args[1])
 	fs := flag.NewFlagSet("check", flag.ExitOnError)
